@@ -346,6 +346,21 @@ def parser_conformance(chk: core.Check, tier: str, seed: int) -> None:
                     chk.violation({"clause": "EVALUATOR find() differs from Evaluator.tla", "set": g["set"]},
                                   {"query": q, "document": doc, "model": want, "code": got})
                     break
+            # Unparse.tla: the specification's own canonical text of the query is one more valid input: the
+            # implementation accepts it and selects with it what it selects with the original text
+            canon = core.dec_text(g["canon"])
+            try:
+                cc = jp.compile(canon)
+                for doc in parserconf.MC_DOCS:
+                    a = [tuple(n.location) for n in cq.find(doc)]
+                    b = [tuple(n.location) for n in cc.find(doc)]
+                    if a != b:
+                        chk.violation({"clause": "UNPARSE the canonical text of the specification selects other nodes", "set": g["set"]},
+                                      {"query": q, "canonical_text": canon, "document": doc, "original": a, "canonical": b})
+                        break
+            except Exception as err:  # noqa: BLE001
+                chk.violation({"clause": "UNPARSE the canonical text of the specification is not accepted", "set": g["set"], "cls": type(err).__name__},
+                              {"query": q, "canonical_text": canon, "error": str(err)[:200]})
         if problem:
             chk.violation({"clause": "PARSER " + problem, "set": g["set"], "model": g["kind"] or "ok", "code": rec["kind"] or "ok"},
                           {"query": q, "model": {"ok": g["ok"], "kind": g["kind"], "ast": g["ast"]},
